@@ -322,15 +322,17 @@ def get_scripts(ctx):
                 for i in idxs(nf):
                     L.append("get frame %d" % i)
                 for fi in ([0, nf] if nf else [0]):
-                    for i in idxs(np_): L.append("get point %d %d" % (fi, i))
+                    for i in idxs(np_): L.append("get point %d %d" % (fi, i)); L.append("get ncpoint %d %d" % (fi, i))
                     for key in pn[:2] + [b"nope", b"p0y", b"P0Y ", b""]:
                         L.append("get pointn %d %s" % (fi, gen.xhex(key))); L.append("get pointidx %d %s" % (fi, gen.xhex(key)))
+                        L.append("get ncpointn %d %s" % (fi, gen.xhex(key)))
                     for k in idxs(nsub if (cn and nf) else 0):
-                        L.append("get sub %d %d" % (fi, k))
+                        L.append("get sub %d %d" % (fi, k)); L.append("get ncsub %d %d" % (fi, k))
                     for i in idxs(nc):
-                        L.append("get chan %d 0 %d" % (fi, i))
+                        L.append("get chan %d 0 %d" % (fi, i)); L.append("get ncchan %d 0 %d" % (fi, i))
                     for key in cn[:2] + [b"C0", b"zz"]:
                         L.append("get chann %d 0 %s" % (fi, gen.xhex(key))); L.append("get chanidx %d 1 %s" % (fi, gen.xhex(key)))
+                        L.append("get ncchann %d 0 %s" % (fi, gen.xhex(key)))
                 # look-ups interleaved with renames of stored elements (a name moving to an EARLIER position, duplicates, a name vanishing)
                 if nf and np_ >= 2:
                     X_ = gen.xhex
@@ -1483,7 +1485,7 @@ def c19(ctx):
         pr = subprocess.run([ub, sp, os.path.join(wd, "u.h")], stdout=subprocess.PIPE, stderr=subprocess.PIPE, env=dict(os.environ, UBSAN_OPTIONS="halt_on_error=0:print_stacktrace=0"), timeout=600)
         run.cleanup(wd)
         import re
-        return re.findall(r"(/repo/src/\w+\.cpp:\d+):\d+: runtime error: ([^\n]{0,60})", pr.stderr.decode("latin1"))
+        return [("/repo/src/" + a, b) for a, b in re.findall(r"/src/(\w+\.cpp:\d+):\d+: runtime error: ([^\n]{0,60})", pr.stderr.decode("latin1"))]
     for found in core.pmap(oneub, jobs[: (20 if q else 200)] + jobs[-1:], workers=12):
         for site, msg in found: sites[site] = sites.get(site, 0) + 1
     EXPECTED = {"hex2uint", "hex2int"}     # the (int)pow(0x100,i) idiom
